@@ -373,6 +373,16 @@ impl Family {
 }
 
 pub fn e1_families(thorough: bool, dims: &[usize], periodic_opts: &[bool]) -> Vec<Family> {
+    let all = e1_families_all(thorough, dims, periodic_opts);
+    // development aid: VERIF_FAMILY_FILTER=<substring of the alphabet name> restricts a run to those families (never set
+    // by the registered commands; the evidence of such a run lists the families it explored)
+    match std::env::var("VERIF_FAMILY_FILTER") {
+        Ok(f) if !f.is_empty() => all.into_iter().filter(|x| x.alpha.contains(&f)).collect(),
+        _ => all,
+    }
+}
+
+fn e1_families_all(thorough: bool, dims: &[usize], periodic_opts: &[bool]) -> Vec<Family> {
     let mut fams = vec![];
     let boxes = box_menu(thorough);
     for &dim in dims {
